@@ -1,5 +1,6 @@
 import RoaringModel.Lemmas.Canonical
 import RoaringModel.Ser
+import RoaringModel.Lemmas.TreemapCanonical
 /-!
 # C04 — equality is extensional: same elements, equal values, whatever the history (property theorems)
 
@@ -35,6 +36,21 @@ theorem C04_producers_partial (b : Bitmap) (h : b.WF) (v : Nat) (hv : v < 429496
     (Bitmap.removeRange b lo hi).1.WF :=
   ⟨⟨List.Pairwise.nil, by simp [Bitmap.new]⟩, (Bitmap.insert_spec b h v hv).1, (Bitmap.remove_spec b h v).1,
    (Bitmap.removeRange_spec b h lo hi hlo hhi).1⟩
+
+/-- **64-bit.** Two well-formed treemaps (partition keys strictly ascending and `< 2^32`, every partition a
+    well-formed non-empty 32-bit bitmap) with the same elements are the same value -/
+theorem C04_canonical64 (s t : Treemap) (hs : Treemap.WFd Bitmap.WF s) (ht : Treemap.WFd Bitmap.WF t)
+    (h : Treemap.elems s = Treemap.elems t) : s = t :=
+  Treemap.canonical s t hs ht h
+
+/-- `==` on treemaps holds exactly when they contain the same integers -/
+theorem C04_eq_iff_elems64 (s t : Treemap) (hs : Treemap.WFd Bitmap.WF s) (ht : Treemap.WFd Bitmap.WF t) :
+    Treemap.eq s t = true ↔ Treemap.elems s = Treemap.elems t :=
+  Treemap.eq_iff_elems s t hs ht
+
+/-- non-vacuity (64-bit): a two-partition treemap reached by two insertion orders -/
+example : (Treemap.insert (Treemap.insert [] 5).1 8589934599).1 = (Treemap.insert (Treemap.insert [] 8589934599).1 5).1 := by
+  decide +kernel
 
 /-- non-vacuity: the same set {5, 70000} reached by two different histories is one value -/
 example : (Bitmap.insert (Bitmap.insert [] 5).1 70000).1 = (Bitmap.remove (Bitmap.insert (Bitmap.insert (Bitmap.insert [] 70000).1 9).1 5).1 9).1 := by
